@@ -1,7 +1,9 @@
 (* C10 property theorems.  Statements + exact + Print Assumptions only. *)
-From Coq Require Import Permutation.
+From Coq Require Import Permutation Sorted.
 From ZV.Common Require Import Base.
 From ZV.C10 Require Import Model Spec ProofsPow2 ProofsRing ProofsHist ProofsVec ProofsValVec ProofsFixed.
+From ZV.Gen Require Import ConstsC10.
+From ZV.C10 Require Import ModelValVec32 ProofsValVec32 ModelArena ProofsArena ModelStrVec ProofsStrVec ModelFixedLen ProofsFixedLen ModelFastVecCopy ProofsFastVecCopy ModelCases.
 Open Scope N_scope.
 
 (* ensure_power_of_two (bit smearing) returns a power of two that is large enough, for every request up to 2^62 *)
@@ -197,3 +199,497 @@ Check fixed_clear_drops_each_once :
   forall (A : Type) n, 0 < n -> forall q (l : list A), F A n q l ->
   exists q', fixed_clear A n q = Ok (q', l) /\ F A n q' [] /\ forall j, fbuf q' j = None.
 Print Assumptions fixed_clear_drops_each_once.
+
+(* ===================== ValVec32<T> at element level (ModelValVec32.v) ===================== *)
+
+(* valvec32_refines_list: for every element type, every requested capacity c and every capacity `usable` >= c the
+   allocator hands out, and every history of push/push_panic/pop/get/set/clear/extend_from_slice/
+   extend_from_slice_copy/push_n_copy/reserve (no bound on its length or on the slice lengths), the model never
+   accesses a slot outside the allocation or an uninitialised slot (no UB), returns what a Vec bounded by
+   u32::MAX returns - Err exactly for a push at len = u32::MAX, an extend/push_n/reserve whose resulting length
+   would exceed u32::MAX and a set past the end - destroys what a Vec destroys (the old element of set, the
+   refused value, the elements of clear), and ends holding the Vec's sequence with len <= capacity <= u32::MAX *)
+Theorem valvec32_refines_list :
+  forall (A : Type) c usable (ops : list (wop A)), c <= usable -> c <= MAX_CAPACITY ->
+  exists v', vv32_run A (vv_with_capacity A c usable) ops = Ok (v', snd (vec32_run A [] ops)) /\
+             W A v' (fst (vec32_run A [] ops)).
+Proof. exact ProofsValVec32.valvec32_refines_list_proof. Qed.
+Check valvec32_refines_list :
+  forall (A : Type) c usable (ops : list (wop A)), c <= usable -> c <= MAX_CAPACITY ->
+  exists v', vv32_run A (vv_with_capacity A c usable) ops = Ok (v', snd (vec32_run A [] ops)) /\
+             W A v' (fst (vec32_run A [] ops)).
+Print Assumptions valvec32_refines_list.
+
+(* valvec32_exactly_once: over a whole history followed by Drop, the elements handed to the vector (pushed, set,
+   cloned from an accepted slice) are - as a multiset - exactly the elements handed back (pop) plus the elements
+   destroyed (old element of set, refused values, clear, Drop); no UB, and no initialised slot is left in the
+   buffer that is freed *)
+Theorem valvec32_exactly_once :
+  forall (A : Type) c usable (ops : list (wop A)), c <= usable -> c <= MAX_CAPACITY ->
+  exists v' outs v'' d,
+    vv32_run A (vv_with_capacity A c usable) ops = Ok (v', outs) /\
+    vv32_drop A v' = Ok (v'', d) /\
+    Permutation (whistory_in A ops outs) (whistory_out A ops outs ++ d) /\
+    (forall j, wbuf v'' j = None).
+Proof. exact ProofsValVec32.valvec32_exactly_once_proof. Qed.
+Check valvec32_exactly_once :
+  forall (A : Type) c usable (ops : list (wop A)), c <= usable -> c <= MAX_CAPACITY ->
+  exists v' outs v'' d,
+    vv32_run A (vv_with_capacity A c usable) ops = Ok (v', outs) /\
+    vv32_drop A v' = Ok (v'', d) /\
+    Permutation (whistory_in A ops outs) (whistory_out A ops outs ++ d) /\
+    (forall j, wbuf v'' j = None).
+Print Assumptions valvec32_exactly_once.
+
+(* Clone holds the same sequence, whatever capacity >= len the allocator hands out *)
+Theorem valvec32_clone_same_sequence :
+  forall (A : Type) v (l : list A) usable, W A v l -> N.of_nat (length l) <= usable ->
+  exists v', vv32_clone A v usable = Ok v' /\ W A v' l.
+Proof. exact ProofsValVec32.W_clone. Qed.
+Check valvec32_clone_same_sequence :
+  forall (A : Type) v (l : list A) usable, W A v l -> N.of_nat (length l) <= usable ->
+  exists v', vv32_clone A v usable = Ok v' /\ W A v' l.
+Print Assumptions valvec32_clone_same_sequence.
+
+(* clear()/Drop destroys exactly the held sequence, each element once, and leaves no initialised slot *)
+Theorem valvec32_clear_drops_each_once :
+  forall (A : Type) v (l : list A), W A v l ->
+  exists v', vv32_clear A v = Ok (v', l) /\ W A v' [] /\ forall j, wbuf v' j = None.
+Proof. exact ProofsValVec32.W_clear. Qed.
+Check valvec32_clear_drops_each_once :
+  forall (A : Type) v (l : list A), W A v l ->
+  exists v', vv32_clear A v = Ok (v', l) /\ W A v' [] /\ forall j, wbuf v' j = None.
+Print Assumptions valvec32_clear_drops_each_once.
+
+(* the element-level model grows by exactly the capacity arithmetic of valvec32_reserve_capacity /
+   valvec32_push_capacity (golden-ratio growth, refusal at u32::MAX) *)
+Theorem valvec32_capacity_agrees :
+  forall (A : Type) (v : vv32 A) n x, wlen v <= wcap v ->
+  match vv32_reserve A v n, vv_reserve (wlen v) (wcap v) n with
+  | Some v1, Some c => wcap v1 = c
+  | None, None => True
+  | _, _ => False
+  end /\
+  match vv32_push A v x, vv_push_cap (wlen v) (wcap v) with
+  | Ok (v1, (RUnit, _)), Some c => wcap v1 = c
+  | Ok (_, (RErr, _)), None => True
+  | _, _ => False
+  end.
+Proof. exact ProofsValVec32.valvec32_capacity_agrees_proof. Qed.
+Check valvec32_capacity_agrees :
+  forall (A : Type) (v : vv32 A) n x, wlen v <= wcap v ->
+  match vv32_reserve A v n, vv_reserve (wlen v) (wcap v) n with
+  | Some v1, Some c => wcap v1 = c
+  | None, None => True
+  | _, _ => False
+  end /\
+  match vv32_push A v x, vv_push_cap (wlen v) (wcap v) with
+  | Ok (v1, (RUnit, _)), Some c => wcap v1 = c
+  | Ok (_, (RErr, _)), None => True
+  | _, _ => False
+  end.
+Print Assumptions valvec32_capacity_agrees.
+
+(* fixed finding (commit 6bed45f): set() stored with ptr::write, the old element was never destroyed:
+   push 1, set(0, 2), Drop: elements 1 and 2 were handed in, only 2 is ever destroyed.  With the assignment
+   (`*ptr = value`) both are *)
+Theorem valvec32_set_leak_refuted :
+  let ops := [WPush 1; WSet 0 2] in
+  match vv32_run_with N true false vv_new ops with
+  | Ok (v, outs) => match vv32_drop N v with
+                    | Ok (_, d) => whistory_in N ops outs = [1; 2] /\ whistory_out N ops outs ++ d = [2]
+                    | UB => False
+                    end
+  | UB => False
+  end /\
+  match vv32_run N vv_new ops with
+  | Ok (v, outs) => match vv32_drop N v with
+                    | Ok (_, d) => whistory_in N ops outs = [1; 2] /\ whistory_out N ops outs ++ d = [1; 2]
+                    | UB => False
+                    end
+  | UB => False
+  end.
+Proof. exact ProofsValVec32.valvec32_set_leak_refuted_proof. Qed.
+Check valvec32_set_leak_refuted :
+  let ops := [WPush 1; WSet 0 2] in
+  match vv32_run_with N true false vv_new ops with
+  | Ok (v, outs) => match vv32_drop N v with
+                    | Ok (_, d) => whistory_in N ops outs = [1; 2] /\ whistory_out N ops outs ++ d = [2]
+                    | UB => False
+                    end
+  | UB => False
+  end /\
+  match vv32_run N vv_new ops with
+  | Ok (v, outs) => match vv32_drop N v with
+                    | Ok (_, d) => whistory_in N ops outs = [1; 2] /\ whistory_out N ops outs ++ d = [1; 2]
+                    | UB => False
+                    end
+  | UB => False
+  end.
+Print Assumptions valvec32_set_leak_refuted.
+
+(* fixed finding: extend_from_slice(_copy) converted slice.len() with `as u32`.  For a slice of 2^32 elements the
+   converted length is 0, nothing is reserved, and the first element is written outside the allocation (UB; on
+   the real code: extend_from_slice_copy of 2^32+3 bytes into a ValVec32<u8> is a heap overflow, and of 2^32+3
+   zero-sized elements returns Ok with len 3).  With u32::try_from the call is refused *)
+Theorem valvec32_extend_truncation_refuted :
+  let big := repeat 0 (N.to_nat 4294967296) in
+  vv32_run_with N false true vv_new [WExtend big] = UB /\
+  vv32_run N vv_new [WExtend big] = Ok (vv_new, [(RErr, [])]).
+Proof. exact ProofsValVec32.valvec32_extend_truncation_refuted_proof. Qed.
+Check valvec32_extend_truncation_refuted :
+  let big := repeat 0 (N.to_nat 4294967296) in
+  vv32_run_with N false true vv_new [WExtend big] = UB /\
+  vv32_run N vv_new [WExtend big] = Ok (vv_new, [(RErr, [])]).
+Print Assumptions valvec32_extend_truncation_refuted.
+
+(* ===================== SortableStrVec (ModelStrVec.v) ===================== *)
+
+(* the constants of the source (regenerated into gen/ConstsC10.v by the constant extractor on every run) have the
+   values the proofs rely on: the accessors' field widths are the 40/60 that push_str hard-codes, the masks are
+   all-ones of the field widths, and the constants the other models copy agree with the source *)
+Theorem strvec_consts_ok :
+  SSV_OFFSET_BITS = 40 /\ SSV_LENGTH_BITS = 20 /\ SSV_SEQ_ID_BITS = 4 /\
+  SSV_OFFSET_MASK = N.ones 40 /\ SSV_LENGTH_MASK = N.ones 20 /\ SSV_SEQ_ID_MASK = N.ones 4 /\
+  SSV_MAX_OFFSET = 2 ^ 40 - 1 /\ SSV_MAX_LENGTH = 2 ^ 20 - 1 /\
+  VV32_MAX_CAPACITY = MAX_CAPACITY /\ RING_INITIAL_CAPACITY = INITIAL_CAPACITY.
+Proof. exact ProofsStrVec.consts_ok. Qed.
+Check strvec_consts_ok :
+  SSV_OFFSET_BITS = 40 /\ SSV_LENGTH_BITS = 20 /\ SSV_SEQ_ID_BITS = 4 /\
+  SSV_OFFSET_MASK = N.ones 40 /\ SSV_LENGTH_MASK = N.ones 20 /\ SSV_SEQ_ID_MASK = N.ones 4 /\
+  SSV_MAX_OFFSET = 2 ^ 40 - 1 /\ SSV_MAX_LENGTH = 2 ^ 20 - 1 /\
+  VV32_MAX_CAPACITY = MAX_CAPACITY /\ RING_INITIAL_CAPACITY = INITIAL_CAPACITY.
+Print Assumptions strvec_consts_ok.
+
+(* CompactEntry: offset(), length() and seq_id() read back what push_str packed, for every offset, length and
+   sequence id that fits its field (bit-level: or of disjoint fields, mask, shift) *)
+Theorem strvec_entry_roundtrip :
+  forall o l s, o <= SSV_MAX_OFFSET -> l <= SSV_MAX_LENGTH -> s < 16 ->
+  ce_offset (ce_pack o l s) = o /\ ce_length (ce_pack o l s) = l /\ ce_seq_id (ce_pack o l s) = s.
+Proof. exact ProofsStrVec.ce_unpack. Qed.
+Check strvec_entry_roundtrip :
+  forall o l s, o <= SSV_MAX_OFFSET -> l <= SSV_MAX_LENGTH -> s < 16 ->
+  ce_offset (ce_pack o l s) = o /\ ce_length (ce_pack o l s) = l /\ ce_seq_id (ce_pack o l s) = s.
+Print Assumptions strvec_entry_roundtrip.
+
+(* strvec_refines_spec: for every sorting routine that returns a permutation of its input and every history of
+   push_str/get/len/iter/clear/sort_lexicographic/sort_by_length/sort_by(f)/radix_sort/get_sorted/iter_sorted whose
+   pushed strings are byte strings, the arena + packed-entry model never panics (no slice or index out of range) and
+   returns exactly what a Vec of strings with an index vector returns - Err exactly for a string longer than 2^20-1
+   bytes or an arena beyond 2^40-1 bytes - and ends related to it (arena = concatenation, entries = layout, index
+   vector a permutation) *)
+Theorem strvec_refines_spec :
+  forall usort : forall T : Type, (T -> T -> comparison) -> list T -> list T,
+  (forall T c l, Permutation l (usort T c l)) ->
+  forall ops, Forall sop_wf ops ->
+  exists v', ssv_run usort ssv_new ops = Done (v', snd (svs_run usort svs_new ops)) /\
+             SV v' (fst (svs_run usort svs_new ops)).
+Proof. exact ProofsStrVec.strvec_refines_spec_proof. Qed.
+Check strvec_refines_spec :
+  forall usort : forall T : Type, (T -> T -> comparison) -> list T -> list T,
+  (forall T c l, Permutation l (usort T c l)) ->
+  forall ops, Forall sop_wf ops ->
+  exists v', ssv_run usort ssv_new ops = Done (v', snd (svs_run usort svs_new ops)) /\
+             SV v' (fst (svs_run usort svs_new ops)).
+Print Assumptions strvec_refines_spec.
+
+(* strvec_get_pushes: every push history whose strings fit the length field and whose total fits the offset field is
+   accepted, push k returns id k, get i is the i-th pushed string (None past the end), iter() yields the pushed
+   sequence *)
+Theorem strvec_get_pushes :
+  forall usort : forall T : Type, (T -> T -> comparison) -> list T -> list T,
+  (forall T c l, Permutation l (usort T c l)) ->
+  forall (ss : list bytes) i,
+  Forall bytes_ok ss -> Forall (fun s => nlen s <= SSV_MAX_LENGTH) ss -> total_len ss <= SSV_MAX_OFFSET ->
+  exists v', ssv_run usort ssv_new (map SPush ss) = Done (v', map (fun k => OId (N.of_nat k)) (seq 0 (length ss))) /\
+             ssv_get v' i = Done (nth_error ss (N.to_nat i)) /\
+             ssv_iter v' = Done ss.
+Proof. exact ProofsStrVec.strvec_get_pushes_proof. Qed.
+Check strvec_get_pushes :
+  forall usort : forall T : Type, (T -> T -> comparison) -> list T -> list T,
+  (forall T c l, Permutation l (usort T c l)) ->
+  forall (ss : list bytes) i,
+  Forall bytes_ok ss -> Forall (fun s => nlen s <= SSV_MAX_LENGTH) ss -> total_len ss <= SSV_MAX_OFFSET ->
+  exists v', ssv_run usort ssv_new (map SPush ss) = Done (v', map (fun k => OId (N.of_nat k)) (seq 0 (length ss))) /\
+             ssv_get v' i = Done (nth_error ss (N.to_nat i)) /\
+             ssv_iter v' = Done ss.
+Print Assumptions strvec_get_pushes.
+
+(* a push is refused exactly when a field would overflow: the length does not fit 20 bits or the arena would
+   outgrow the 40-bit offset field (the code's `offset > MAX_OFFSET/2 && ...` shortcut is equivalent) *)
+Theorem strvec_push_refused_iff :
+  forall v st s, SV v st ->
+  (snd (ssv_push_str_with true v s) = OErr <->
+   SSV_MAX_LENGTH < nlen s \/ SSV_MAX_OFFSET < total_len (sl st) + nlen s).
+Proof. exact ProofsStrVec.strvec_push_refused_iff_proof. Qed.
+Check strvec_push_refused_iff :
+  forall v st s, SV v st ->
+  (snd (ssv_push_str_with true v s) = OErr <->
+   SSV_MAX_LENGTH < nlen s \/ SSV_MAX_OFFSET < total_len (sl st) + nlen s).
+Print Assumptions strvec_push_refused_iff.
+
+(* strvec_sort_is_sorted_perm: for every sorting routine meeting the contract of slice::sort_unstable_by (a
+   permutation; sorted when the comparator is a total preorder), sort_lexicographic()/sort() does not panic,
+   leaves the strings and their insertion order untouched (still related to the same sequence: only the index
+   vector changed), and the sorted view is a permutation of the pushed strings in byte-lexicographic order - which
+   is unique, hence independent of the routine (no stability is claimed: the code sorts unstably and equal strings
+   are indistinguishable) *)
+Theorem strvec_sort_is_sorted_perm :
+  forall usort : forall T : Type, (T -> T -> comparison) -> list T -> list T,
+  (forall T c l, Permutation l (usort T c l)) ->
+  (forall T c l, total_preorder c -> StronglySorted (fun a b => c a b <> Gt) (usort T c l)) ->
+  forall v st, SV v st ->
+  exists v' view,
+    ssv_sort_lex usort v = Done v' /\
+    SV v' {| sl := sl st; sx := sidx v'; ssorted := true |} /\
+    ssv_iter_sorted v' = Done view /\
+    Permutation view (sl st) /\ StronglySorted lex_le view /\
+    view = isort_by _ lex_cmp (sl st).
+Proof. exact ProofsStrVec.strvec_sort_lex_proof. Qed.
+Check strvec_sort_is_sorted_perm :
+  forall usort : forall T : Type, (T -> T -> comparison) -> list T -> list T,
+  (forall T c l, Permutation l (usort T c l)) ->
+  (forall T c l, total_preorder c -> StronglySorted (fun a b => c a b <> Gt) (usort T c l)) ->
+  forall v st, SV v st ->
+  exists v' view,
+    ssv_sort_lex usort v = Done v' /\
+    SV v' {| sl := sl st; sx := sidx v'; ssorted := true |} /\
+    ssv_iter_sorted v' = Done view /\
+    Permutation view (sl st) /\ StronglySorted lex_le view /\
+    view = isort_by _ lex_cmp (sl st).
+Print Assumptions strvec_sort_is_sorted_perm.
+
+(* sort_by(f) for a comparator that is a total preorder on strings: sorted permutation, strings untouched *)
+Theorem strvec_sort_by_is_sorted_perm :
+  forall usort : forall T : Type, (T -> T -> comparison) -> list T -> list T,
+  (forall T c l, Permutation l (usort T c l)) ->
+  (forall T c l, total_preorder c -> StronglySorted (fun a b => c a b <> Gt) (usort T c l)) ->
+  forall v st (f : bytes -> bytes -> comparison), SV v st -> total_preorder f ->
+  exists v' view,
+    ssv_sort_by usort f v = Done v' /\
+    SV v' {| sl := sl st; sx := sidx v'; ssorted := true |} /\
+    ssv_iter_sorted v' = Done view /\
+    Permutation view (sl st) /\ StronglySorted (fun a b => f a b <> Gt) view.
+Proof. exact ProofsStrVec.strvec_sort_by_proof. Qed.
+Check strvec_sort_by_is_sorted_perm :
+  forall usort : forall T : Type, (T -> T -> comparison) -> list T -> list T,
+  (forall T c l, Permutation l (usort T c l)) ->
+  (forall T c l, total_preorder c -> StronglySorted (fun a b => c a b <> Gt) (usort T c l)) ->
+  forall v st (f : bytes -> bytes -> comparison), SV v st -> total_preorder f ->
+  exists v' view,
+    ssv_sort_by usort f v = Done v' /\
+    SV v' {| sl := sl st; sx := sidx v'; ssorted := true |} /\
+    ssv_iter_sorted v' = Done view /\
+    Permutation view (sl st) /\ StronglySorted (fun a b => f a b <> Gt) view.
+Print Assumptions strvec_sort_by_is_sorted_perm.
+
+(* sort_by_length (which re-uses the previous index vector when it is complete): a permutation ordered by length *)
+Theorem strvec_sort_by_length_is_sorted_perm :
+  forall usort : forall T : Type, (T -> T -> comparison) -> list T -> list T,
+  (forall T c l, Permutation l (usort T c l)) ->
+  (forall T c l, total_preorder c -> StronglySorted (fun a b => c a b <> Gt) (usort T c l)) ->
+  forall v st, SV v st ->
+  exists v' view,
+    ssv_sort_by_length usort v = Done v' /\
+    SV v' {| sl := sl st; sx := sidx v'; ssorted := true |} /\
+    ssv_iter_sorted v' = Done view /\
+    Permutation view (sl st) /\ StronglySorted (fun a b => nlen a <= nlen b) view.
+Proof. exact ProofsStrVec.strvec_sort_by_length_proof. Qed.
+Check strvec_sort_by_length_is_sorted_perm :
+  forall usort : forall T : Type, (T -> T -> comparison) -> list T -> list T,
+  (forall T c l, Permutation l (usort T c l)) ->
+  (forall T c l, total_preorder c -> StronglySorted (fun a b => c a b <> Gt) (usort T c l)) ->
+  forall v st, SV v st ->
+  exists v' view,
+    ssv_sort_by_length usort v = Done v' /\
+    SV v' {| sl := sl st; sx := sidx v'; ssorted := true |} /\
+    ssv_iter_sorted v' = Done view /\
+    Permutation view (sl st) /\ StronglySorted (fun a b => nlen a <= nlen b) view.
+Print Assumptions strvec_sort_by_length_is_sorted_perm.
+
+(* radix_sort (MSD radix: ended strings first, then the buckets of byte value 0..255 in order, each sorted recursively
+   one byte deeper; fewer than 32 items are handed to the comparison sort on the remaining suffixes; the index vector of
+   a previous sort is re-used): never panics, leaves the strings untouched, and the sorted view is the same
+   lexicographically sorted permutation that sort_lexicographic produces - for strings of any length (the recursion
+   depth is bounded by the longest string) *)
+Theorem strvec_radix_sort_is_sorted_perm :
+  forall usort : forall T : Type, (T -> T -> comparison) -> list T -> list T,
+  (forall T c l, Permutation l (usort T c l)) ->
+  (forall T c l, total_preorder c -> StronglySorted (fun a b => c a b <> Gt) (usort T c l)) ->
+  forall v st, SV v st ->
+  exists v' view,
+    ssv_radix_sort usort v = Done v' /\
+    SV v' {| sl := sl st; sx := sidx v'; ssorted := true |} /\
+    ssv_iter_sorted v' = Done view /\
+    Permutation view (sl st) /\ StronglySorted lex_le view /\
+    view = isort_by _ lex_cmp (sl st).
+Proof. exact ProofsStrVec.strvec_radix_sort_proof. Qed.
+Check strvec_radix_sort_is_sorted_perm :
+  forall usort : forall T : Type, (T -> T -> comparison) -> list T -> list T,
+  (forall T c l, Permutation l (usort T c l)) ->
+  (forall T c l, total_preorder c -> StronglySorted (fun a b => c a b <> Gt) (usort T c l)) ->
+  forall v st, SV v st ->
+  exists v' view,
+    ssv_radix_sort usort v = Done v' /\
+    SV v' {| sl := sl st; sx := sidx v'; ssorted := true |} /\
+    ssv_iter_sorted v' = Done view /\
+    Permutation view (sl st) /\ StronglySorted lex_le view /\
+    view = isort_by _ lex_cmp (sl st).
+Print Assumptions strvec_radix_sort_is_sorted_perm.
+
+(* fixed finding (commit 1a81140): without the check of the length field a string of 2^20 bytes is accepted, its
+   length overflows into the sequence-id bits and get() returns the empty string; with the check it is refused *)
+Theorem strvec_long_string_refuted :
+  let ops := [SPush [104]; SPush long_str; SGet 1; SGet 0] in
+  run_outs (ssv_run_with isort_by false ssv_new ops) = Some [OId 0; OId 1; OStr (Some []); OStr (Some [104])] /\
+  run_outs (ssv_run isort_by ssv_new ops) = Some [OId 0; OErr; OStr None; OStr (Some [104])].
+Proof. exact ProofsStrVec.strvec_long_string_refuted_proof. Qed.
+Check strvec_long_string_refuted :
+  let ops := [SPush [104]; SPush long_str; SGet 1; SGet 0] in
+  run_outs (ssv_run_with isort_by false ssv_new ops) = Some [OId 0; OId 1; OStr (Some []); OStr (Some [104])] /\
+  run_outs (ssv_run isort_by ssv_new ops) = Some [OId 0; OErr; OStr None; OStr (Some [104])].
+Print Assumptions strvec_long_string_refuted.
+
+(* ===================== FixedLenStrVec<N> (ModelFixedLen.v) ===================== *)
+
+(* fixedlen_refines_list: for every N and every history of push/get/get_bytes/len/find_exact/count_prefix whose
+   pushed strings are well-formed UTF-8 (they are &str), the arena + (offset:24 | length:8) model never panics and
+   returns what a Vec of strings returns: Err exactly for a string longer than N or 255 bytes or an arena that
+   would reach 2^24 bytes, get = the string as pushed (shorter than N: no padding; embedded NUL: kept),
+   find_exact = first index, count_prefix = number of strings with the prefix *)
+Theorem fixedlen_refines_list :
+  forall n (ops : list fop), Forall fop_wf ops ->
+  exists v', flv_run n flv_new ops = Done (v', snd (fls_run n [] ops)) /\ FV n v' (fst (fls_run n [] ops)).
+Proof. exact ProofsFixedLen.fixedlen_refines_list_proof. Qed.
+Check fixedlen_refines_list :
+  forall n (ops : list fop), Forall fop_wf ops ->
+  exists v', flv_run n flv_new ops = Done (v', snd (fls_run n [] ops)) /\ FV n v' (fst (fls_run n [] ops)).
+Print Assumptions fixedlen_refines_list.
+
+(* fixedlen_get_pushes: all pushes of strings of at most min(N, 255) bytes are accepted while the total stays below
+   2^24 bytes, and get / get_bytes i is the i-th pushed string byte for byte *)
+Theorem fixedlen_get_pushes :
+  forall n (ss : list bytes) i,
+  Forall (fun s => nlen s <= n /\ nlen s <= 255) ss -> Forall (fun s => utf8_valid s = true) ss ->
+  nlen (concat ss) < 16777216 ->
+  exists v', flv_run n flv_new (map FPush ss) = Done (v', map (fun _ => FUnit) ss) /\
+             flv_get v' i = Done (nth_error ss (N.to_nat i)) /\
+             flv_get_bytes v' i = Done (nth_error ss (N.to_nat i)) /\
+             fcnt v' = nlen ss.
+Proof. exact ProofsFixedLen.fixedlen_get_pushes_proof. Qed.
+Check fixedlen_get_pushes :
+  forall n (ss : list bytes) i,
+  Forall (fun s => nlen s <= n /\ nlen s <= 255) ss -> Forall (fun s => utf8_valid s = true) ss ->
+  nlen (concat ss) < 16777216 ->
+  exists v', flv_run n flv_new (map FPush ss) = Done (v', map (fun _ => FUnit) ss) /\
+             flv_get v' i = Done (nth_error ss (N.to_nat i)) /\
+             flv_get_bytes v' i = Done (nth_error ss (N.to_nat i)) /\
+             fcnt v' = nlen ss.
+Print Assumptions fixedlen_get_pushes.
+
+(* a push is refused exactly when the string is longer than N or 255 bytes, or the arena would reach 2^24 bytes *)
+Theorem fixedlen_push_refused_iff :
+  forall n v l s, FV n v l ->
+  (snd (flv_push n v s) = FErr <-> n < nlen s \/ 255 < nlen s \/ 16777216 <= nlen (concat l) + nlen s).
+Proof. exact ProofsFixedLen.fixedlen_push_refused_iff_proof. Qed.
+Check fixedlen_push_refused_iff :
+  forall n v l s, FV n v l ->
+  (snd (flv_push n v s) = FErr <-> n < nlen s \/ 255 < nlen s \/ 16777216 <= nlen (concat l) + nlen s).
+Print Assumptions fixedlen_push_refused_iff.
+
+(* ===================== FastVec<T: Copy>: the SIMD / bulk paths (ModelFastVecCopy.v) ===================== *)
+
+(* fastvec_copy_refines_list: for every element type and size, every kernel triple meeting its contract (copy =
+   identity, fill = repeat, compare decides equality) and every history of push/pop/insert/remove/resize/clear/
+   shrink_to_fit/extend/extend_from_slice_fast/reserve/get/fill_range_fast/copy_from_slice_fast/ensure_capacity, the
+   Copy-type paths (temporary-buffer moves, bulk copies behind len, kernel fills, size thresholds) never read an
+   uninitialised slot, refuse exactly the out-of-range insert/remove/fill, and hold the sequence the list functions
+   give: the scalar path's vec_step, `firstn a l ++ repeat x (b - a) ++ skipn b l` for fill_range_fast(a, b, x),
+   and the source itself for copy_from_slice_fast *)
+Theorem fastvec_copy_refines_list :
+  forall (A : Type) esz (fast_copy : list A -> list A) (fast_fill : A -> nat -> list A)
+         (fast_compare : list A -> list A -> bool) (aeqb : A -> A -> bool),
+  (forall l, fast_copy l = l) -> (forall x n, fast_fill x n = repeat x n) ->
+  (forall x y, aeqb x y = true <-> x = y) ->
+  (forall a b, length a = length b -> (fast_compare a b = true <-> a = b)) ->
+  forall c (ops : list (cop A)),
+  exists v', fvc_run A esz fast_copy fast_fill (fv_with_capacity c) ops = Ok (v', snd (cvec_run A [] ops)) /\
+             V A v' (fst (cvec_run A [] ops)).
+Proof. exact ProofsFastVecCopy.fastvec_copy_refines_list_proof. Qed.
+Check fastvec_copy_refines_list :
+  forall (A : Type) esz (fast_copy : list A -> list A) (fast_fill : A -> nat -> list A)
+         (fast_compare : list A -> list A -> bool) (aeqb : A -> A -> bool),
+  (forall l, fast_copy l = l) -> (forall x n, fast_fill x n = repeat x n) ->
+  (forall x y, aeqb x y = true <-> x = y) ->
+  (forall a b, length a = length b -> (fast_compare a b = true <-> a = b)) ->
+  forall c (ops : list (cop A)),
+  exists v', fvc_run A esz fast_copy fast_fill (fv_with_capacity c) ops = Ok (v', snd (cvec_run A [] ops)) /\
+             V A v' (fst (cvec_run A [] ops)).
+Print Assumptions fastvec_copy_refines_list.
+
+(* fastvec_bulk_equals_scalar: on every well-formed vector, each operation of the Copy path that has a scalar
+   counterpart in Model.v (extend_from_slice_fast ~ extend) returns the same value and ends in the same len, the
+   same capacity and a pointwise equal buffer as the scalar path *)
+Theorem fastvec_bulk_equals_scalar :
+  forall (A : Type) esz (fast_copy : list A -> list A) (fast_fill : A -> nat -> list A)
+         (fast_compare : list A -> list A -> bool) (aeqb : A -> A -> bool),
+  (forall l, fast_copy l = l) -> (forall x n, fast_fill x n = repeat x n) ->
+  (forall x y, aeqb x y = true <-> x = y) ->
+  (forall a b, length a = length b -> (fast_compare a b = true <-> a = b)) ->
+  forall (v : fvec A) (l : list A) (o : cop A) (so : vop A), V A v l -> scalar_of A o = Some so ->
+  exists v1 v2 b2,
+    fvc_step A esz fast_copy fast_fill v o = Ok (v1, fst b2) /\ fv_step A v so = Ok (v2, b2) /\
+    vlen v1 = vlen v2 /\ vcap v1 = vcap v2 /\ (forall j, vbuf v1 j = vbuf v2 j).
+Proof. exact ProofsFastVecCopy.fastvec_bulk_equals_scalar_proof. Qed.
+Check fastvec_bulk_equals_scalar :
+  forall (A : Type) esz (fast_copy : list A -> list A) (fast_fill : A -> nat -> list A)
+         (fast_compare : list A -> list A -> bool) (aeqb : A -> A -> bool),
+  (forall l, fast_copy l = l) -> (forall x n, fast_fill x n = repeat x n) ->
+  (forall x y, aeqb x y = true <-> x = y) ->
+  (forall a b, length a = length b -> (fast_compare a b = true <-> a = b)) ->
+  forall (v : fvec A) (l : list A) (o : cop A) (so : vop A), V A v l -> scalar_of A o = Some so ->
+  exists v1 v2 b2,
+    fvc_step A esz fast_copy fast_fill v o = Ok (v1, fst b2) /\ fv_step A v so = Ok (v2, b2) /\
+    vlen v1 = vlen v2 /\ vcap v1 = vcap v2 /\ (forall j, vbuf v1 j = vbuf v2 j).
+Print Assumptions fastvec_bulk_equals_scalar.
+
+(* PartialEq (length check, fast_compare on the byte view when beneficial, slice equality otherwise) decides
+   equality of the held sequences *)
+Theorem fastvec_copy_eq_decides :
+  forall (A : Type) esz (fast_copy : list A -> list A) (fast_fill : A -> nat -> list A)
+         (fast_compare : list A -> list A -> bool) (aeqb : A -> A -> bool),
+  (forall l, fast_copy l = l) -> (forall x n, fast_fill x n = repeat x n) ->
+  (forall x y, aeqb x y = true <-> x = y) ->
+  (forall a b, length a = length b -> (fast_compare a b = true <-> a = b)) ->
+  forall (v w : fvec A) (l m : list A), V A v l -> V A w m ->
+  exists b, fvc_eq A esz fast_compare aeqb v w = Ok b /\ (b = true <-> l = m).
+Proof. exact ProofsFastVecCopy.fvc_eq_spec. Qed.
+Check fastvec_copy_eq_decides :
+  forall (A : Type) esz (fast_copy : list A -> list A) (fast_fill : A -> nat -> list A)
+         (fast_compare : list A -> list A -> bool) (aeqb : A -> A -> bool),
+  (forall l, fast_copy l = l) -> (forall x n, fast_fill x n = repeat x n) ->
+  (forall x y, aeqb x y = true <-> x = y) ->
+  (forall a b, length a = length b -> (fast_compare a b = true <-> a = b)) ->
+  forall (v w : fvec A) (l m : list A), V A v l -> V A w m ->
+  exists b, fvc_eq A esz fast_compare aeqb v w = Ok b /\ (b = true <-> l = m).
+Print Assumptions fastvec_copy_eq_decides.
+
+(* fixed findings (commits e1bd0ea, d3bd929): on the pinned tree ensure_capacity(1) on [1; 2] aborts the process
+   (outcome UB), so does copy_from_slice_fast(&[9]), and copy_from_slice_fast(&[]) leaves both elements; the
+   repaired code yields [9] and []  *)
+Theorem fastvec_copy_from_refuted :
+  let v12 := fv_push N (fv_push N fv_new 1) 2 in
+  fvc_step_with N 8 k_copy k_fill true v12 (CCopyFrom [9]) = UB /\
+  fvc_step_with N 8 k_copy k_fill true v12 (CEnsure 1) = UB /\
+  match fvc_step_with N 8 k_copy k_fill true v12 (CCopyFrom []) with Ok (v, _) => vlen v = 2 | UB => False end /\
+  match fvc_step N 8 k_copy k_fill v12 (CCopyFrom [9]) with Ok (v, _) => vlen v = 1 /\ vbuf v 0 = Some 9 /\ vbuf v 1 = None | UB => False end /\
+  match fvc_step N 8 k_copy k_fill v12 (CCopyFrom []) with Ok (v, _) => vlen v = 0 /\ vbuf v 0 = None | UB => False end.
+Proof. exact ProofsFastVecCopy.fastvec_copy_from_refuted_proof. Qed.
+Check fastvec_copy_from_refuted :
+  let v12 := fv_push N (fv_push N fv_new 1) 2 in
+  fvc_step_with N 8 k_copy k_fill true v12 (CCopyFrom [9]) = UB /\
+  fvc_step_with N 8 k_copy k_fill true v12 (CEnsure 1) = UB /\
+  match fvc_step_with N 8 k_copy k_fill true v12 (CCopyFrom []) with Ok (v, _) => vlen v = 2 | UB => False end /\
+  match fvc_step N 8 k_copy k_fill v12 (CCopyFrom [9]) with Ok (v, _) => vlen v = 1 /\ vbuf v 0 = Some 9 /\ vbuf v 1 = None | UB => False end /\
+  match fvc_step N 8 k_copy k_fill v12 (CCopyFrom []) with Ok (v, _) => vlen v = 0 /\ vbuf v 0 = None | UB => False end.
+Print Assumptions fastvec_copy_from_refuted.
